@@ -24,7 +24,30 @@ def uses_parallel(force, threads, k, size, mink, minn):
     return force == "par" or (threads > 1 and k >= mink and size >= minn)
 
 
+def gen_op_many(rng):
+    """>= 17 sequences, heavy duplicates, >= 17 threads, every splitting: the partition's initial sample has more
+    than 16 equal-key entries, ties across many sequences at every split point"""
+    cmp = rng.choice(["lt", "lt", "gt", "half"])
+    k = rng.choice([17, 18, 20, 24, 32, 33, 40])
+    nv = rng.choice([2, 2, 3, 4])
+    vals = list(range(nv)) if cmp != "half" else list(range(2 * nv))
+    # (almost) equal lengths: every sequence then contributes a real sample to the initial partition
+    L = rng.choice([1, 1, 2, 3, 4])
+    lens = [0 if rng.random() < 0.05 else (L if rng.random() < 0.85 else rng.randrange(1, L + 2)) for _ in range(k)]
+    runs = [make_run(rng, cmp, l, vals) for l in lens]
+    total = sum(lens)
+    variant = rng.choice(["s", "s", "s", "u"])
+    split = rng.choice(["exact", "exact", "sampling"])
+    threads = rng.choice([2, 3, 5, 17, 17, 19, 24, 32])
+    osf = rng.choice([1, 2, 10])
+    algo = rng.choice(["lt", "ltc", "bubble"])
+    size = total if rng.random() < 0.5 else rng.randrange(total + 1)
+    return f"pm {variant} {cmp} {split} {threads} {osf} {algo} par 2 1000 {size} " + " ".join(csv(r) for r in runs)
+
+
 def gen_op(rng, tier):
+    if rng.random() < 0.06:
+        return gen_op_many(rng)
     cmp = rng.choice(["lt", "lt", "lt", "gt", "half"])
     k = rng.choice([1, 2, 2, 3, 3, 4, 4, 5, 5, 6, 8])
     if rng.random() < 0.03:
@@ -89,6 +112,7 @@ def parse_pm(op):
 
 class C07(flow.Spec):
     pid = "C07"
+    source_files = ('tlx/algorithm/parallel_multiway_merge.hpp', 'tlx/algorithm/parallel_multiway_merge.cpp', 'tlx/algorithm/multiway_merge_splitting.hpp', 'tlx/algorithm/multisequence_partition.hpp')
     harness = dict(name="c07", sources=["c07.cpp"], repo_sources=["tlx/algorithm/parallel_multiway_merge.cpp"])
     nontrivial_rule = ("a `pm` operation is non-trivial when it ran on the parallel path with >= 2 non-empty thread "
                        "windows and some key occurs in two different input sequences on both sides of a window "
@@ -175,8 +199,10 @@ class C07(flow.Spec):
     def cases(self, ctx, seed, tier, round_no=0):
         rng = random.Random(seed * 1000003 + round_no * 7919 + 7)
         n = 3000 if tier == "quick" else 12000
+        if tier != "quick" and ctx.tier == "quick":
+            n = 6000          # deeper validation requested by the flow (modelled sources changed) inside the quick tier
         cs = []
-        if tier != "quick" and round_no == 0:
+        if tier != "quick" and ctx.tier != "quick" and round_no == 0:
             self._tsan(ctx, seed)
         for i in range(n):
             lines = [f"case c{round_no}_{i}"]
